@@ -342,7 +342,7 @@ def route_uids(r):
         v = pars.get(k) if pars is not None and hasattr(pars, 'get') else None
         if isinstance(v, ss.uids): out |= set(int(u) for u in v)
     for sub in getattr(r, 'pools', []) or []:
-        out |= route_uids(sub)
+        out |= set(route_uids(sub))
     return sorted(out)
 
 
@@ -663,14 +663,24 @@ def correspond(ctx):
     sims = [(cfg, fixed_extra(tag)) for _, cfg, tag in FIXED_SIMS + MODSET_FIXED]
     sims += [(gen_sim_cfg(ctx.rng, k), None) for k in range(nsim)]
     sims += [(gen_modset_cfg(ctx.rng), None) for k in range(ctx.budget(6, 40))]
+    # the shared scenario zoo: the model follows the recorded People calls of every entry, whatever its modules / units / timelines
+    from harness import zoo
+    nown = len(sims)
+    sims += [(cfg, None) for name, cfg in zoo.configs()]
+    zoo_name = {id(cfg): name for (cfg, _), (name, _) in zip(sims[nown:], zoo.configs())}
     for cfg, extra in sims:
+        zn = zoo_name.get(id(cfg))
         try:
             rec = record_sim(cfg, extra)
+            if zn: ctx.count('zoo_corr_runs')
         except Exception as e:
             import traceback
+            if zn:        # a zoo entry the harness cannot record is a harness problem, not a broken tie
+                ctx.count('zoo_exceptions'); ctx.notes['last_zoo_exception'] = f'{zn} (correspondence): {type(e).__name__}: {e}'; continue
             ctx.broke('correspondence', 'C10.sim', f'recording a generated sim raised {type(e).__name__}: {e}\n{traceback.format_exc()[-1200:]}', data=cfg)
             continue
         lines, obs = sim_lines(rec)
+        if zn: cfg = dict(cfg, _zoo=zn)
         per.append(('sim', cfg, lines, obs, len(all_lines))); all_lines += lines
         if plan_rows:
             try:
@@ -692,7 +702,7 @@ def correspond(ctx):
                 d = None if want == got else f"the loop plan of the real sim differs from the regenerated plan table instantiated for its modules: real={got} model={want}"
             if d is not None and nbroken < 3:
                 nbroken += 1
-                ctx.broke('correspondence', 'C10.plan', d, data=dict(kind='sim', cfg=case))
+                ctx.broke('correspondence', 'C10.plan', (f"[zoo:{case['_zoo']}] " if case.get('_zoo') else '') + d, data=dict(kind='sim', cfg=case))
             continue
         for j, item in enumerate(log):
             obs = item[1] if kind == 'seq' else item
@@ -708,7 +718,8 @@ def correspond(ctx):
         if div is not None and nbroken < 3:
             nbroken += 1
             data = dict(kind='opseq', case=dict(case, ops=case['ops'][:at])) if kind == 'seq' else dict(kind='sim', cfg=case)
-            ctx.broke('correspondence', f'C10.{kind}', f"real People diverges from Model/People.lean at call {at} `{lines[at]}`: {div}", data=data)
+            ztag = f"[zoo:{case['_zoo']}] " if kind == 'sim' and case.get('_zoo') else ''
+            ctx.broke('correspondence', f'C10.{kind}', f"{ztag}real People diverges from Model/People.lean at call {at} `{lines[at]}`: {div}", data=data)
     ctx.notes['sim_families'] = [f"{'+'.join(f['demographics'])}|{'+'.join(f['diseases'])}" for f in SIM_FAMILIES]
 
 
@@ -1047,6 +1058,7 @@ def search(ctx):
             ctx.fail(dict(oracle='scenario-vacuous', op='sim.run'), f'the fixed scenario sim [{why}] is there to have deaths requested and carried out, but nobody died in it', dict(kind='fixed-sim', cfg=cfg, tag=tag))
         for sig, what in fails:
             ctx.fail(sig, what, dict(kind='fixed-sim', cfg=cfg, tag=tag))
+    search_zoo(ctx)
     # operation sequences
     for k in range(ctx.budget(40, 300)):
         try:
@@ -1062,6 +1074,21 @@ def search(ctx):
         if kf.get('replay'):
             for sig, what in replay_fails(kf['replay']):
                 ctx.fail(sig, what, kf['replay'])
+
+
+def search_zoo(ctx):
+    """ every sim-level oracle of the Tracker (dense ids, alignment of every array and registered state, active = not died,
+        permanence, death timing incl. the stamp oracles, loop phases, per-step balance and flow, route clean-up, disease
+        death hooks) over every entry of the shared scenario zoo, on every run """
+    from harness import zoo
+    for name, cfg in zoo.configs():
+        try:
+            fails, tot = oracle_sim(cfg)
+        except Exception as e:
+            ctx.count('zoo_exceptions'); ctx.notes['last_zoo_exception'] = f'{name}: {type(e).__name__}: {e}'; continue
+        ctx.count('zoo_runs'); ctx.count('zoo_deaths', tot['dead'])
+        for sig, what in fails:
+            ctx.fail(sig, f'[zoo:{name}] ' + what, dict(kind='sim', cfg=cfg))
 
 
 def replay_fails(data):
